@@ -147,7 +147,43 @@ def try_continue_block(body, call_bb):
         if nt['k'] == 'goto':
             nb = nt['target']
             continue
-        return None
+        break
+    return _explicit_continue_block(body, call_bb)
+
+
+def _explicit_continue_block(body, call_bb):
+    """the same propagation written out: `if let Err(v) = call() { return Err(v) }`, `match call() { Ok(x) => .., Err(v) =>
+    return Err(v) }`, `let .. else`: a switch on the discriminant of the call's result whose Ok edge continues and whose Err
+    edge leaves the function (reaches a return without coming back to the Ok continuation)"""
+    t = body.term(call_bb)
+    dest = t['dest']['l']
+    aliases = {dest}
+    # references / moves of the result
+    for i, j, s in body.stmts():
+        if s['k'] == 'assign' and not s['place']['p'] and s['rv']['k'] in ('ref', 'use'):
+            p = s['rv']['place'] if s['rv']['k'] == 'ref' else op_place(s['rv']['op'])
+            if p is not None and p['l'] in aliases and all(e == '*' for e in p['p']):
+                aliases.add(s['place']['l'])
+    for sb in sorted(body.reachable(t['target'])):
+        st = body.term(sb)
+        if st['k'] != 'switch' or not dominates(body, call_bb, sb):
+            continue
+        dl = op_local(st['discr'])
+        hit = False
+        for kind, dbb, idx, x in body.defs().get(dl, []) if dl is not None else []:
+            if kind == 'stmt' and x['rv']['k'] == 'discr' and x['rv']['place']['l'] in aliases and all(e == '*' for e in x['rv']['place']['p']):
+                hit = True
+        if not hit:
+            continue
+        tg = {int(v): x for v, x in st['targets']}
+        cont = tg.get(0, st['otherwise'] if 1 in tg else None)
+        brk = tg.get(1, st['otherwise'] if 0 in tg else None)
+        if cont is None or brk is None or cont == brk:
+            return None
+        # the Err edge must leave: it may not reach the continuation
+        if cont in body.reachable(brk):
+            return None
+        return cont, brk
     return None
 
 
